@@ -8,6 +8,7 @@ import (
 	"strings"
 
 	"verif/checks/c02"
+	"verif/checks/ccrypto"
 	"verif/engine"
 )
 
@@ -18,6 +19,10 @@ type check struct {
 
 var checks = map[string]check{
 	"C02": {"model_checking", c02.Run},
+	"C05": {"model_checking", ccrypto.RunC05},
+	"C06": {"model_checking", ccrypto.RunC06},
+	"C07": {"model_checking", ccrypto.RunC07},
+	"C08": {"model_checking", ccrypto.RunC08},
 }
 
 func main() {
